@@ -1130,8 +1130,32 @@ class Sym:
                 r = self.ev.region(t[2][0])
                 if r is not None:
                     return "crc32c(%s)" % self.region_name(r)
+            if short(t[1]) in ("Index::index", "IndexMut::index_mut") and len(t[2]) == 2:
+                # S[S.iter().position(P).unwrap()] is S.iter().find(P).unwrap(): the first element satisfying P
+                ix = strip(t[2][1])
+                if ix[0] == "call" and short(ix[1]) in ("Option::<T>::unwrap", "Option::<T>::expect") and ix[2]:
+                    ps = unmut(ix[2][0])
+                    if ps[0] == "call" and short(ps[1]) == "Iterator::position" and len(ps[2]) == 2:
+                        it = unmut(ps[2][0])
+                        if it[0] == "call" and short(it[1]) in ("<impl [T]>::iter", "Vec::<T, A>::iter") and self.name(it[2][0]) == self.name(t[2][0]):
+                            return "Option::<T>::unwrap(Iterator::find(%s,%s))" % (self.arg_name(ps[2][0]), self.arg_name(ps[2][1]))
+            if short(t[1]) == "FromResidual::from_residual" and len(t[2]) == 1:
+                # the early return of `X?`: the same value as the explicit `Err(e) => return Err(e)` / `None => return None`
+                # arm (error conversions by From are transparent in this vocabulary)
+                a_ = strip(t[2][0])
+                if a_[0] == "field" and a_[2] == 0 and strip(a_[1])[0] == "downcast" and strip(a_[1])[2] == "Break":
+                    br = strip(strip(a_[1])[1])
+                    if br[0] == "call" and short(br[1]) == "Try::branch" and len(br[2]) == 1:
+                        rty = self.an.body.locals[0]["ty"]
+                        rp = rty.get("p", "") if rty.get("k") == "adt" else ""
+                        if rp.endswith("result::Result"):
+                            return "Err{(%s as Err).0}" % self.name(br[2][0])
+                        if rp.endswith("option::Option"):
+                            return "None{}"
             return "%s(%s)" % (self.call_sig(t), ",".join(self.arg_name(a) for a in t[2]))
         if k == "field":
+            if t[2] == 0 and strip(t[1])[0] == "downcast" and strip(t[1])[2] == "Ok":
+                return "%s?" % self.name(strip(t[1])[1])        # Ok payload: the value of `X?`
             return "%s.%d" % (self.name(t[1]), t[2])
         if k == "try":
             return "%s?" % self.name(t[1])
@@ -1140,6 +1164,25 @@ class Sym:
         if k == "index":
             return "%s[%s]" % (self.name(t[1]), self.arg_name(t[2]))
         if k == "var":
+            if self.path_blocks is not None and ("nvar", t[1]) not in self._busy_vars:
+                # on a concrete path a multi-definition local has one reaching definition: name that value
+                # (`Some(match x { A => Row{..}, B => Row{..} })` names the row of the path, like `if .. { Some(Row{..}) }`)
+                ds = None
+                try:
+                    # only on a path from the function entry and for locals never assigned inside a loop: then the
+                    # last definition on the path is the one every later read sees
+                    alld = self.an.terms.defs.whole[t[1]]
+                    first_blk = min(self.path_order, key=self.path_order.get) if getattr(self, "path_order", None) else None
+                    if first_blk == 0 and not any(self.loops_containing(d[0]) for d in alld) and not self.an.terms.defs.partial[t[1]]:
+                        ds = self.var_defs(t[1], t[2] if len(t) > 2 else None)
+                except Exception:
+                    ds = None
+                if ds and len(ds) == 1 and strip(ds[0])[0] not in ("loopval", "var"):
+                    self._busy_vars.add(("nvar", t[1]))
+                    try:
+                        return self.name(ds[0])
+                    finally:
+                        self._busy_vars.discard(("nvar", t[1]))
             return self.uniq(t[1], "var<%s>" % self.short_ty(self.an.body.locals[t[1]]["ty"]))
         if k == "mut":
             return self.uniq(t[1], self.mut_name(t))
